@@ -2,6 +2,8 @@ package emit
 
 import (
 	"go/types"
+	"sort"
+	"strings"
 
 	"golang.org/x/tools/go/ssa"
 
@@ -102,6 +104,28 @@ func (b *Builder) literalOf(v ssa.Value, s state) *Literal {
 			lit.Pos = mi.Pos()
 		}
 	}
+	// the instruction was built by a helper that the walker went through on this path
+	if c, ok := v.(*ssa.Call); ok && s.fr != nil {
+		if o, ok := s.env.rets[s.fr.id+"/"+c.Name()]; ok && strings.HasPrefix(o.Name, "literal:") {
+			if l := b.lits[o.Name]; l != nil {
+				return l
+			}
+		}
+		// outside the walker (policy-level evaluation): the helper's single return, with its parameters bound to this
+		// call's arguments; a value that depends on a branch of the helper is the join of its alternatives
+		if cal := c.Call.StaticCallee(); cal != nil && isBPFStruct(c.Type()) && b.valueHelper(cal) {
+			var rets []*ssa.Return
+			for _, blk := range cal.Blocks {
+				if r, ok := blk.Instrs[len(blk.Instrs)-1].(*ssa.Return); ok {
+					rets = append(rets, r)
+				}
+			}
+			if len(rets) == 1 && len(rets[0].Results) == 1 {
+				nf := b.frameFor(s.fr, c, cal, s.env)
+				return b.literalOf(rets[0].Results[0], state{fr: nf, blk: rets[0].Block(), env: s.env})
+			}
+		}
+	}
 	t := v.Type()
 	if n, ok := t.(*types.Named); ok {
 		lit.Type = n.Obj().Name()
@@ -140,6 +164,16 @@ func (b *Builder) literalOf(v ssa.Value, s state) *Literal {
 		}
 	}
 	return lit
+}
+
+// signature identifies a literal by type and field origins.
+func (l *Literal) signature() string {
+	var parts []string
+	for k, v := range l.Fields {
+		parts = append(parts, k+"="+v.String())
+	}
+	sort.Strings(parts)
+	return l.Type + "{" + strings.Join(parts, ",") + "}"
 }
 
 // literals: the instruction literals appended by a store to the instruction list.
